@@ -139,6 +139,18 @@ def run(algo, X, rank, cfg, n_iter_max, tol=None):
     cfg['tenalg'] (optional): run under that tensor-algebra backend ('core' / 'einsum') - a configuration axis."""
     import tensorly as tl
 
+    if cfg.get("verbose"):  # the chatty switch is a configuration like any other; its output is discarded
+        import contextlib
+        import io
+
+        with contextlib.redirect_stdout(io.StringIO()):
+            return _run_t(algo, X, rank, cfg, n_iter_max, tol)
+    return _run_t(algo, X, rank, cfg, n_iter_max, tol)
+
+
+def _run_t(algo, X, rank, cfg, n_iter_max, tol=None):
+    import tensorly as tl
+
     if "tenalg" in cfg:
         cfg = dict(cfg)
         name = cfg.pop("tenalg")
